@@ -393,3 +393,30 @@ Proof.
   - apply perm_natb_sound. rewrite forallb_forall in H. apply H. apply in_seq. lia.
   - unfold tbl_sched, tbl_arity. rewrite !nth_overflow by lia. constructor.
 Qed.
+
+Lemma Forall_nodes_impl (P Q : nat -> list (list node) -> Prop) :
+  (forall k fs, P k fs -> Q k fs) -> forall d n, depth n <= d -> Forall_nodes P n -> Forall_nodes Q n.
+Proof.
+  intros HPQ. induction d as [|d IH]; intros [k fs] Hd H; [simpl in Hd; lia|].
+  split; [apply HPQ; exact (Forall_nodes_here _ _ _ H)|].
+  assert (Hch : forall f c, In f fs -> In c f -> Forall_nodes Q c).
+  { intros f c Hf Hc. apply IH.
+    - pose proof (depth_child k fs f c Hf Hc). lia.
+    - eapply Forall_nodes_child; eauto. }
+  clear H Hd. induction fs as [|f r IHr]; [exact I|]. split.
+  - assert (Hf : forall c, In c f -> Forall_nodes Q c) by (intros c Hc; apply (Hch f c); [now left|exact Hc]).
+    clear Hch IHr. induction f as [|c q IHq]; [exact I|]. split; [apply Hf; now left|].
+    apply IHq. intros c' Hc'. apply Hf. now right.
+  - apply IHr. intros f' c Hf' Hc. apply (Hch f' c); [now right|exact Hc].
+Qed.
+
+(* kinds of a tree all lie below a bound (the size of the kind table) *)
+Definition kinds_below (b : nat) := Forall_nodes (fun k _ => k < b).
+
+Theorem traverse_total (arity : nat -> nat) (reg : nat -> bool) (s : schedule) (b : nat) :
+  (forall k, k < b -> reg k = true) ->
+  forall n, kinds_below b n -> exists l, visit (depth n) reg s [] n = inr l.
+Proof.
+  intros Hreg n Hk. exists (visitT (depth n) s [] n). apply visit_visitT; [|lia].
+  apply (Forall_nodes_impl (fun k _ => k < b) (fun k _ => reg k = true)) with (d := depth n); auto.
+Qed.
